@@ -247,6 +247,7 @@ type Case struct {
 	BodyLen    int       `json:"body_len"` // -1: the request has no body object at all (nil)
 	Term       string    `json:"term"`     // "EOF" or "ERR" (sticky injected error after the last byte)
 	Mode       string    `json:"mode"`
+	FirstByte  *int      `json:"first_byte,omitempty"` // request A: value of body byte 0 when it is not the pattern's (content axis)
 	More       []ReqSpec `json:"more,omitempty"`
 	Ops        []string  `json:"ops"`
 	ZeroBudget int       `json:"zero_budget"`
@@ -273,15 +274,26 @@ type config struct {
 	term    error
 	mode    string
 	data    []byte
+	first   int    // -1: body byte 0 is the pattern's; otherwise its value
 	wire    []byte // wire modes: the raw request text
 }
 
 // newConfig: which (0 = A, 1 = B, 2 = C) selects the body content, so that the bodies of
 // requests that are alive together share no byte value at any offset.
 func newConfig(id, bodyLen int, term error, mode string, which int) *config {
-	c := &config{id: id, bodyLen: bodyLen, term: term, mode: mode}
+	return newConfigFirst(id, bodyLen, term, mode, which, -1)
+}
+
+// newConfigFirst: first >= 0 replaces body byte 0 (content axis: the answer of a probe and the bytes read
+// back must not depend on what the bytes are - line breaks, blanks, 0x00, 0xFF).
+func newConfigFirst(id, bodyLen int, term error, mode string, which, first int) *config {
+	c := &config{id: id, bodyLen: bodyLen, term: term, mode: mode, first: -1}
 	if bodyLen >= 0 {
 		c.data = makeBody(bodyLen, which)
+		if first >= 0 && bodyLen > 0 {
+			c.data[0] = byte(first)
+			c.first = first
+		}
 	}
 	if isWire(mode) {
 		c.wire = wireText(mode, c.data)
@@ -310,6 +322,9 @@ func (cfg *config) String() string {
 	if cfg.bodyLen < 0 {
 		return "nil body, " + cfg.mode
 	}
+	if cfg.first >= 0 {
+		return fmt.Sprintf("%d bytes (first byte %#02x) then %s, %s", cfg.bodyLen, cfg.first, termName(cfg.term), cfg.mode)
+	}
 	return fmt.Sprintf("%d bytes then %s, %s", cfg.bodyLen, termName(cfg.term), cfg.mode)
 }
 
@@ -322,6 +337,9 @@ func opLabel(o uint8, multi bool) string {
 
 func mkCase(cfgs []*config, ops []uint8, zb int, choices []int) Case {
 	c := Case{BodyLen: cfgs[0].bodyLen, Term: termName(cfgs[0].term), Mode: cfgs[0].mode, ZeroBudget: zb, Choices: choices, Ops: []string{}}
+	if f := cfgs[0].first; f >= 0 {
+		c.FirstByte = &f
+	}
 	for _, g := range cfgs[1:] {
 		c.More = append(c.More, ReqSpec{g.bodyLen, termName(g.term), g.mode})
 	}
@@ -334,7 +352,7 @@ func mkCase(cfgs []*config, ops []uint8, zb int, choices []int) Case {
 	return c
 }
 
-func parseReq(bodyLen int, termS, mode string, which int) (*config, error) {
+func parseReq(bodyLen int, termS, mode string, which, first int) (*config, error) {
 	var term error
 	switch termS {
 	case "EOF", "":
@@ -357,20 +375,24 @@ func parseReq(bodyLen int, termS, mode string, which int) (*config, error) {
 	if isWire(mode) && !wireOK(mode, bodyLen, term) {
 		return nil, fmt.Errorf("wire modes need a body length >= 0 (0 for %s) and terminal EOF", modeWireNone)
 	}
-	return newConfig(which, bodyLen, term, mode, which), nil
+	return newConfigFirst(which, bodyLen, term, mode, which, first), nil
 }
 
 func parseCase(c Case) ([]*config, []uint8, error) {
 	if len(c.More) > maxReqs-1 {
 		return nil, nil, fmt.Errorf("at most %d requests", maxReqs)
 	}
-	cfg, err := parseReq(c.BodyLen, c.Term, c.Mode, 0)
+	first := -1
+	if c.FirstByte != nil && *c.FirstByte >= 0 && *c.FirstByte <= 255 {
+		first = *c.FirstByte
+	}
+	cfg, err := parseReq(c.BodyLen, c.Term, c.Mode, 0, first)
 	if err != nil {
 		return nil, nil, err
 	}
 	cfgs := []*config{cfg}
 	for i, m := range c.More {
-		g, err := parseReq(m.BodyLen, m.Term, m.Mode, i+1)
+		g, err := parseReq(m.BodyLen, m.Term, m.Mode, i+1, -1)
 		if err != nil {
 			return nil, nil, err
 		}
@@ -971,6 +993,7 @@ type sweep struct {
 	extended   bool // alphabet of 8 operations, and only histories that use Read(4095) or Read(8192) (the others are covered by the base sweeps)
 	bound      int  // deviations of the streams from their default answers; -1 = unbounded
 	zeroBudget int
+	firsts     []int // content axis: values of body byte 0 for bodies of length >= 1 (-1 = the pattern's byte, 0x00); nil = pattern only
 
 	// several-request sweeps: every ordered tuple of nreq bodies from multi, operations multiOps on each request
 	nreq  int
